@@ -20,6 +20,7 @@ func init() {
 			"R3 one key name: the key version handed to CA.Certificate, CA.CABundle and Signer.Sign in SignDoc is one value obtained from PrimarySigningKeyVersion. " +
 			"R4 raw output: InspectPayload / InspectSignature write the field bytes themselves (C19.R5). " +
 			"R5 (= C20.R1) the Cloud KMS signer returns a signature only behind the response-CRC, verified-digest/data and options guards, so the bytes signed are the digest SignDoc computed. " +
+			"R6 (= C11.R4/R4b/R7) in the storage-backed authority a key version's manifest entry names the object uploaded for it through the gate, so the certificate SignDoc embeds is the signing key's own. " +
 			"Not covered: that verification succeeds (runtime cryptography), validity windows, rotation histories, storage-backed versus in-memory authorities.",
 		Assumptions: []string{"go/types, go/ssa", "crypto/rsa, crypto/x509 semantics"},
 		Run:         runC03,
@@ -30,6 +31,12 @@ func runC03(c *Ctx) {
 	// R5 = C20.R1: a Cloud KMS signature is only handed to SignDoc after the service confirmed that it signed the
 	// digest that was sent (a digest damaged in transit yields a well-formed signature that does not verify).
 	c.borrow("R5/C20.", runC20, func(rule, _ string) bool { return rule == "R1" })
+	// R6 = C11.R4/R4b/R7: the certificate object recorded for a key version in the storage-backed authority is the one
+	// uploaded for it through the gate (a manifest entry pointing a new key at an older object makes SignDoc embed a
+	// certificate for another key: the endorsement no longer verifies).
+	c.borrow("R6/C11.", runC11, func(rule, construct string) bool {
+		return rule == "R4" || rule == "R4b" || rule == "R7" || ((rule == "ESP") && (strings.HasPrefix(construct, "R4:") || strings.HasPrefix(construct, "R7:")))
+	})
 	epbPkg := repoPath("proto/endorsement")
 	stypPkg := repoPath("sign/types")
 	sd := c.fn("R1", "endorse", "SignDoc")
